@@ -20,6 +20,7 @@ RULE = ("case = (small grammar decorated with repetition/optional sugar with and
         "with >= 3 interior nodes that involves a per-alternative list, a named match or a sugar helper; distinct by "
         "(grammar, actions, input)")
 ASSUMPTIONS = [
+    "the built-in collect actions skip a non-first element whose result is None (a nullable element that matched nothing); the reference evaluator does the same",
     "reference evaluator (pv/props/c09.py ref_eval) states docs/actions.md and docs/grammar_language.md: argument order, alternative index, named-match binding, default nested lists with single-child unpacking, +,*,? built-ins",
     "actions are pure tagging functions, so results reveal argument order, alternative choice and bindings",
 ]
@@ -120,9 +121,11 @@ def ref_eval(node, case, helpers, with_actions):
             kind, base, sep = helpers[name]
             if kind == "+":
                 # x_1: x_1 [sep] x | x  -> flat list of element results
+                # the built-in collect actions skip an element whose result is
+                # None (a nullable element that matched nothing) unless it is the first
                 if len(kids) == 1:
                     return (sub[0],)
-                return tuple(sub[0]) + (sub[-1],)
+                return tuple(sub[0]) + ((sub[-1],) if sub[-1] is not None else ())
             if kind == "*":
                 return tuple(sub[0]) if kids else ()
             return sub[0] if kids else None
